@@ -180,6 +180,16 @@ func (a sortableNodeArray) compare(lhs *CandidateNode, rhs *CandidateNode, dateT
 		return 1
 	}
 
+	// numbers sort before strings (and anything else); comparing a number with a string
+	// by their text made the order intransitive: 2 < 10, 10 == "10", "10" < 2.
+	lhsIsNumber := lhsTag == "!!int" || lhsTag == "!!float"
+	rhsIsNumber := rhsTag == "!!int" || rhsTag == "!!float"
+	if lhsIsNumber && !rhsIsNumber {
+		return -1
+	} else if !lhsIsNumber && rhsIsNumber {
+		return 1
+	}
+
 	if lhsTag == "!!int" && rhsTag == "!!int" {
 		_, lhsNum, lhsErr := parseInt64(lhs.Value)
 		_, rhsNum, rhsErr := parseInt64(rhs.Value)
